@@ -13,6 +13,7 @@ Every bundled record is also checked (by TLC) to lie in the class of zones the d
 """
 import json
 import os
+import random
 
 import corpus
 import fnspec
@@ -24,6 +25,7 @@ MC = "MC_TzIndex"
 SPEC = "Trace_TzIndex"
 WORKER = "fn_tzindex.py"
 BASE = "2015-03-14"
+PAR = max(1, int(os.environ.get("VERIF_WORKERS", "16") or 16))     # processes / TLC workers at a time
 
 
 # ---------------------------------------------------------------------------------------------
@@ -50,6 +52,30 @@ MATCHERS = {"date_offset_read_at_utc_midnight": _date_offset_read_at_utc_midnigh
 
 
 # ---------------------------------------------------------------------------------------------
+# Random synthetic zones beyond the bound of the design model (up to 5 transitions in a 48-hour window,
+# offsets -14..+12 h as in the bundled data, 24 h jumps across the date line).  Only inputs are made here;
+# the judge checks TzIndex!WellFormed on them and everything else.
+def random_zones(seed, count):
+  rng = random.Random("C34-syn-%d" % seed)
+  out = []
+  while len(out) < count:
+    n = rng.choice((1, 2, 2, 3, 3, 4, 5))
+    u = sorted(rng.sample(range(-24, 25), n))
+    o = [rng.choice((-14, -13, -12, 10, 11, 12)) if rng.random() < 0.15 else rng.randrange(-14, 13)]
+    for _ in range(n):
+      r = rng.random()
+      step = rng.choice((-3, -2, -1, -1, -1, 0, 1, 1, 1, 2, 3))
+      if r < 0.08:
+        step = -24 if o[-1] >= 10 else 24 if o[-1] <= -12 else step
+      o.append(o[-1] + step)
+    if any(x < -14 or x > 12 for x in o):
+      continue
+    jumps = [abs(o[k + 1] - o[k]) for k in range(n)]
+    if all(u[k + 1] - u[k] > jumps[k] + jumps[k + 1] for k in range(n - 1)):
+      out.append({"z": {"u": u, "o": o}, "lo": -24, "hi": 24, "rnd": 1})
+  return out
+
+
 def _describe(case, clause):
   p = case["probe"]
   e = p["e"]
@@ -124,11 +150,11 @@ def _work(shards, workdir, tag="cases"):
     inp = os.path.join(workdir, "%s-in-%02d.json" % (tag, i))
     json.dump(items, open(inp, "w"))
     args.append({"inp": inp, "out": os.path.join(workdir, "%s-%02d.json" % (tag, i))})
-  corpus.run_workers(WORKER, args)
+  corpus.run_workers(WORKER, args, parallel=PAR)
   return [a["out"] for a in args]
 
 
-def _judge(files, workdir, parallel=16, tail=None):
+def _judge(files, workdir, parallel=PAR, tail=None):
   """
   TLC over every file; returns ([(case, verdict record, file)], counts, number of cases, wall).
   tail = (file, n): the last n cases of that file are self-test cases (not counted).
@@ -169,6 +195,7 @@ def _selftest_cases(files):
   r1["ts"][0]["b"] = "0.5"
   r2["loc"][0]["off"] = "1.000000"
   r3["dt"][0]["back"] = "1600-01-01"
+  r3["dt"][0]["dx"] = 1
   return [syn, s1, s2, s3, real, r1, r2, r3], \
          [None, ("C34.roundtrip", "ts", 1), ("C34.offset", "loc", 1), ("C34.date", "dt", 2),
           None, ("C34.roundtrip", "ts", 1), ("C34.offset", "loc", 1), ("C34.date", "dt", 1)]
@@ -221,7 +248,7 @@ def _count(n, cases):
 
 def run(ctx):
   cfg = "%s_%s.cfg" % (MC, ctx.tier)
-  data, model = fnspec.enumerate_inputs(MC, cfg, ctx.workdir)
+  data, model = fnspec.enumerate_inputs(MC, cfg, ctx.workdir, workers=PAR)
   inputs = data["inputs"]
   if len(inputs) != model["distinct"] - data["seeds"]:
     raise tlc.MachineryError("TLC found %d distinct states (%d seeds) but wrote %d inputs"
@@ -231,8 +258,9 @@ def run(ctx):
   # the first also holds the shape cases of all bundled records)
   nsh = 4 if ctx.quick else 16
   real = {"k": "real", "parts": nsh, "seed": ctx.seed, "sample": 24 if ctx.quick else 0,
-          "nrand": 40 if ctx.quick else 300}
-  shards = [[dict(i, k="syn") for i in inputs[p::nsh]] + [dict(real, part=p)] for p in range(nsh)]
+          "nrand": 40 if ctx.quick else 200}
+  rnd = random_zones(ctx.seed, 60 if ctx.quick else 1500)
+  shards = [[dict(i, k="syn") for i in (inputs + rnd)[p::nsh]] + [dict(real, part=p)] for p in range(nsh)]
   shards[0].append({"k": "shape"})
   files = _work(shards, ctx.workdir)
   st_cases, expect = _selftest_cases(files)
@@ -250,12 +278,12 @@ def run(ctx):
   _selftest_check(expect, verdicts, st_path)
   keep = len(expect) - len(st_cases)
   verdicts = [v for v in verdicts if not (v[2] == st_path and v[1]["i"] > keep)]
-  if n["syn_zones"] != len(inputs):
-    raise tlc.MachineryError("recorded %d synthetic cases for %d zones" % (n["syn_zones"], len(inputs)))
+  if n["syn_zones"] != len(inputs) + len(rnd):
+    raise tlc.MachineryError("recorded %d synthetic cases for %d zones" % (n["syn_zones"], len(inputs) + len(rnd)))
   if n["shape_zones"] < 500 or n["real_zones"] == 0:
     raise tlc.MachineryError("bundled zone data not read: %r" % (n,))
-  ctx.log("judged %d probes of %d synthetic zones and %d probes of %d bundled zones in %.1fs"
-          % (n["syn_probes"], n["syn_zones"], n["real_probes"], n["real_zones"], wall))
+  ctx.log("judged %d probes of %d synthetic zones (%d of them random, beyond the bound) and %d probes of %d bundled zones in %.1fs"
+          % (n["syn_probes"], n["syn_zones"], len(rnd), n["real_probes"], n["real_zones"], wall))
   viol, classes = _cap(_violations(verdicts))
   probes = n["syn_probes"] + n["real_probes"]
   mid = len(inputs) // 2
@@ -286,7 +314,7 @@ def run(ctx):
                     "to the synthetic part, the bundled part is every transition of the zones taken plus a seeded "
                     "random sample of instants"],
     "violations": viol,
-    "extra": dict(n, violation_classes=classes, model_wall_s=round(model["wall"], 1), judge_wall_s=round(wall, 1),
+    "extra": dict(n, enumerated_zones=len(inputs), random_zones=len(rnd), violation_classes=classes, model_wall_s=round(model["wall"], 1), judge_wall_s=round(wall, 1),
                   bundled_part_level="exploration"),
   }
 
